@@ -1643,6 +1643,19 @@ pub fn walk(e: &GExpr, f: &mut dyn FnMut(&GExpr)) {
                 walk(s, f);
             }
         }
+        GExpr::RawRecord { fields, spread, .. } => {
+            for (_, v) in fields {
+                walk(v, f);
+            }
+            if let Some(s) = spread {
+                walk(s, f);
+            }
+        }
+        GExpr::Call(_, args) => {
+            for a in args {
+                walk(a, f);
+            }
+        }
         GExpr::List(items) => {
             for i in items {
                 walk(i, f);
